@@ -158,7 +158,7 @@ bool Units::UnitsImpl::isBaseUnitWithHistory(History &history, const UnitsConstP
     return (mUnits->unitCount() == 0) && standardUnitCheck;
 }
 
-bool Units::UnitsImpl::performTestWithHistory(History &history, const UnitsConstPtr &units, TestType type) const
+bool Units::UnitsImpl::performTestWithHistory(History &history, const UnitsConstPtr &units, TestType type, std::vector<UnitsConstPtr> &localHistory) const
 {
     ModelPtr model;
     if (mUnits->isImport()) {
@@ -179,10 +179,11 @@ bool Units::UnitsImpl::performTestWithHistory(History &history, const UnitsConst
 
         history.push_back(h);
 
-        return importedUnits->pFunc()->performTestWithHistory(history, importedUnits, type);
+        return importedUnits->pFunc()->performTestWithHistory(history, importedUnits, type, localHistory);
     }
 
     model = std::dynamic_pointer_cast<libcellml::Model>(mUnits->parent());
+    localHistory.push_back(units);
     for (size_t unitIndex = 0; unitIndex < mUnits->unitCount(); ++unitIndex) {
         std::string reference = mUnits->unitAttributeReference(unitIndex);
         if (isStandardUnitName(reference)) {
@@ -192,7 +193,12 @@ bool Units::UnitsImpl::performTestWithHistory(History &history, const UnitsConst
         if (model != nullptr) {
             auto childUnits = model->units(reference);
             if (childUnits != nullptr) {
-                if (!childUnits->pFunc()->performTestWithHistory(history, childUnits, type)) {
+                if (std::find(localHistory.begin(), localHistory.end(), childUnits) != localHistory.end()) {
+                    // The child units are defined in terms of these units: there is nothing else to resolve, but they are not defined.
+                    if (type == TestType::DEFINED) {
+                        return false;
+                    }
+                } else if (!childUnits->pFunc()->performTestWithHistory(history, childUnits, type, localHistory)) {
                     return false;
                 }
             } else if (type == TestType::DEFINED) {
@@ -202,6 +208,7 @@ bool Units::UnitsImpl::performTestWithHistory(History &history, const UnitsConst
             return false;
         }
     }
+    localHistory.pop_back();
 
     return true;
 }
@@ -740,13 +747,15 @@ UnitsPtr Units::clone() const
 bool Units::isDefined() const
 {
     History history;
-    return pFunc()->performTestWithHistory(history, shared_from_this(), TestType::DEFINED);
+    std::vector<UnitsConstPtr> localHistory;
+    return pFunc()->performTestWithHistory(history, shared_from_this(), TestType::DEFINED, localHistory);
 }
 
 bool Units::doIsResolved() const
 {
     History history;
-    return pFunc()->performTestWithHistory(history, shared_from_this(), TestType::RESOLVED);
+    std::vector<UnitsConstPtr> localHistory;
+    return pFunc()->performTestWithHistory(history, shared_from_this(), TestType::RESOLVED, localHistory);
 }
 
 } // namespace libcellml
